@@ -12,6 +12,7 @@ import (
 	"net/netip"
 	"os"
 	"os/exec"
+	"runtime"
 	"sort"
 	"strings"
 	"time"
@@ -38,16 +39,83 @@ func cmac(i int) []byte { return []byte{2, 0, 0, 0, 2, byte(i)} }
 func cip(i int) []byte  { return []byte{192, 168, 0, byte(30 + i)} }
 func clla(i int) []byte { return []byte{0xfe, 0x80, 0, 0, 0, 0, 0, 0, 0, 0, 0, 0, 0, 0, 2, byte(i)} }
 
-// History builds a deterministic packet history from the seed.
-func History(seed int64, n int) [][]byte { return history(seed, n) }
+// History builds a deterministic packet history from the seed (the packet mix C07 replays as well).
+func History(seed int64, n int) [][]byte { return history(seed, n, false) }
 
-func history(seed int64, n int) [][]byte {
+// dhcpFrame wraps a DHCP message of a client (port 68 -> 67) or of another server (67 -> 68).
+func dhcpFrame(srcMAC, srcIP, dstIP []byte, fromServer bool, d []byte) []byte {
+	sp, dp := 68, 67
+	if fromServer {
+		sp, dp = 67, 68
+	}
+	return frames.Ether(bcast, srcMAC, 0x0800, 0, frames.IP4(frames.IP4Opts{TotalLen: -1, Proto: 17, Src: srcIP, Dst: dstIP, TTL: 64}, frames.UDP(sp, dp, -1, d)))
+}
+
+// history: rich adds the DHCP transactions that make the server start background senders (forged DECLINE to the
+// home router in the secondary modes): init-reboot / renew / rebind REQUESTs with a client identifier and a host
+// name from clients with and without a lease, selects for another server, DECLINE / RELEASE, OFFERs of another server.
+func history(seed int64, n int, rich bool) [][]byte {
 	r := rand.New(rand.NewSource(seed))
 	var h [][]byte
 	xid := func() []byte { return []byte{byte(r.Intn(256)), byte(r.Intn(256)), byte(r.Intn(256)), byte(r.Intn(256))} }
+	zero, all := []byte{0, 0, 0, 0}, []byte{255, 255, 255, 255}
+	kinds := 10
+	if rich {
+		kinds = 14
+	}
 	for len(h) < n {
 		i := r.Intn(5)
-		switch r.Intn(10) {
+		switch r.Intn(kinds) {
+		case 10, 11: // REQUEST without server id: init-reboot (requested address), renewing, rebinding
+			name := names[r.Intn(len(names))]
+			cid := append([]byte{1}, cmac(i)...)
+			opts := [][2][]byte{{{12}, []byte(name)}, {{61}, cid}, {{55}, {1, 3, 6, 15}}}
+			if r.Intn(4) == 0 { // some clients are keyed by their MAC
+				opts = [][2][]byte{{{12}, []byte(name)}, {{55}, {1, 3, 6}}}
+			}
+			addr := cip(r.Intn(6))
+			if r.Intn(2) == 0 { // the address the full transactions below obtain
+				addr = []byte{192, 168, 0, byte(60 + i)}
+			}
+			switch r.Intn(4) {
+			case 0, 1:
+				q := frames.DHCP(1, xid(), 0, nil, nil, cmac(i), 3, append(opts, [2][]byte{{50}, addr}))
+				h = append(h, dhcpFrame(cmac(i), zero, all, false, q))
+			case 2:
+				q := frames.DHCP(1, xid(), 0, addr, nil, cmac(i), 3, opts)
+				h = append(h, dhcpFrame(cmac(i), addr, []byte{192, 168, 0, 129}, false, q))
+			default:
+				q := frames.DHCP(1, xid(), 0x8000, addr, nil, cmac(i), 3, opts)
+				h = append(h, dhcpFrame(cmac(i), zero, all, false, q))
+			}
+		case 12: // full transaction naming an address, select for us or for the home router, then sometimes DECLINE / RELEASE
+			x := xid()
+			name := names[r.Intn(len(names))]
+			cid := append([]byte{1}, cmac(i)...)
+			addr := []byte{192, 168, 0, byte(60 + i)} // not used by the plain traffic: free in the home pool
+			if r.Intn(3) == 0 {
+				addr = []byte{192, 168, 0, byte(160 + i)} // in the netfilter pool (captured clients)
+			}
+			d := frames.DHCP(1, x, 0x8000, nil, nil, cmac(i), 1, [][2][]byte{{{12}, []byte(name)}, {{61}, cid}, {{50}, addr}, {{55}, {1, 3, 6}}})
+			h = append(h, dhcpFrame(cmac(i), zero, all, false, d))
+			srv := []byte{192, 168, 0, 129}
+			if r.Intn(3) == 0 {
+				srv = []byte{192, 168, 0, 11}
+			}
+			q := frames.DHCP(1, x, 0x8000, nil, nil, cmac(i), 3, [][2][]byte{{{12}, []byte(name)}, {{61}, cid}, {{50}, addr}, {{54}, srv}, {{55}, {1, 3, 6}}})
+			h = append(h, dhcpFrame(cmac(i), zero, all, false, q))
+			switch r.Intn(4) {
+			case 0:
+				e := frames.DHCP(1, xid(), 0, nil, nil, cmac(i), 4, [][2][]byte{{{61}, cid}, {{50}, addr}, {{54}, {192, 168, 0, 129}}})
+				h = append(h, dhcpFrame(cmac(i), zero, all, false, e))
+			case 1:
+				e := frames.DHCP(1, xid(), 0, addr, nil, cmac(i), 7, [][2][]byte{{{61}, cid}, {{54}, {192, 168, 0, 129}}})
+				h = append(h, dhcpFrame(cmac(i), addr, []byte{192, 168, 0, 129}, false, e))
+			}
+		case 13: // OFFER of the home router to a client (seen by us: the secondary modes answer with a forged DECLINE)
+			cid := append([]byte{1}, cmac(i)...)
+			o := frames.DHCP(2, xid(), 0x8000, nil, cip(i), cmac(i), 2, [][2][]byte{{{54}, {192, 168, 0, 11}}, {{51}, {0, 0, 14, 16}}, {{61}, cid}, {{1}, {255, 255, 255, 0}}, {{3}, {192, 168, 0, 11}}})
+			h = append(h, dhcpFrame(routerMAC, []byte{192, 168, 0, 11}, all, true, o))
 		case 0: // ARP request / announcement
 			h = append(h, frames.Ether(bcast, cmac(i), 0x0806, 0, frames.ARP(1, 6, 4, cmac(i), cip(r.Intn(6)), bcast, []byte{192, 168, 0, 11})))
 		case 1: // DHCP discover + request with host name
@@ -87,11 +155,13 @@ func history(seed int64, n int) [][]byte {
 func canonFrame(f []byte) string {
 	if len(f) > 42+240 && f[12] == 8 && f[13] == 0 && f[23] == 17 && (f[36] == 0 && (f[37] == 67 || f[37] == 68)) {
 		g := append([]byte{}, f...)
-		if g[34] == 0 && g[35] == 68 { // sent as a client: random xid
+		opts := g[42+240:]
+		// sent as a client with a random transaction id: only RELEASE (forceRelease passes no xid); DECLINE and the
+		// DISCOVER storm carry given ids, which must not depend on the buffer mode
+		if g[34] == 0 && g[35] == 68 && len(opts) >= 3 && opts[0] == 53 && opts[2] == 7 {
 			copy(g[42+4:42+8], []byte{0, 0, 0, 0})
 			g[24], g[25] = 0, 0 // IPv4 checksum unaffected; UDP checksum is zero anyway
 		}
-		opts := g[42+240:]
 		var tlvs []string
 		i := 0
 		for i < len(opts) && opts[i] != 255 {
@@ -116,18 +186,44 @@ func nameStr(n packet.NameEntry) string { return fmt.Sprintf("%q/%q/%q", n.Name,
 // worker executes one history in the given buffer mode and returns the transcript.
 func worker(mode string, seed int64, n int) string {
 	var t strings.Builder
+	// one P: a goroutine started by a handler (`go h.forceDecline(...)`) cannot run before the packet loop yields, i.e.
+	// not before the receive buffer has been reused - the schedule under which an aliasing argument shows.  The
+	// loop then waits until the goroutines a step started have finished, so that the frames they send belong to
+	// that step's transcript in both buffer modes.
+	runtime.GOMAXPROCS(1)
 	s, conn := sess.New(nil)
 	ah, _ := arp.New(s)
 	h6, _ := icmp.New6(s)
 	dh := dns.VerifNewC07(s)
 	lease := fmt.Sprintf("%s/build/c10-lease-%d-%s.yml", os.Getenv("VERIF_DIR"), os.Getpid(), mode)
 	defer os.Remove(lease)
-	dhcpd, err := dhcp.Config{Mode: dhcp.ModePrimaryServer, NetfilterIP: netip.MustParsePrefix("192.168.0.129/25"), DNSServer: netip.MustParseAddr("8.8.8.8"), LeaseFilename: lease}.New(s)
+	// operating mode by history: primary, secondary (forged DECLINEs for every client), secondary-nice (for captured clients)
+	dmode := []dhcp.Mode{dhcp.ModePrimaryServer, dhcp.ModeSecondaryServer, dhcp.ModeSecondaryServerNice}[int(seed%3+3)%3]
+	if dmode == dhcp.ModeSecondaryServerNice {
+		s.Capture(cmac(0))
+		s.Capture(cmac(2))
+		s.Capture(cmac(3))
+	}
+	dhcpd, err := dhcp.Config{Mode: dmode, NetfilterIP: netip.MustParsePrefix("192.168.0.129/25"), DNSServer: netip.MustParseAddr("8.8.8.8"), LeaseFilename: lease}.New(s)
 	if err != nil {
 		return "dhcp.New: " + err.Error()
 	}
+	fmt.Fprintf(&t, "dhcp mode %d\n", dmode)
 	shared := make([]byte, 2048)
-	for k, pkt := range history(seed, n) {
+	// quiescent number of goroutines (handler loops): start-up goroutines that end by themselves are given time to do so
+	base := runtime.NumGoroutine()
+	for stable := 0; stable < 5; {
+		time.Sleep(5 * time.Millisecond)
+		if g := runtime.NumGoroutine(); g == base {
+			stable++
+		} else {
+			base, stable = g, 0
+		}
+	}
+	for k, pkt := range history(seed, n, true) {
+		if g := runtime.NumGoroutine(); g < base {
+			base = g
+		}
 		var buf []byte
 		if mode == "scribble" {
 			buf = shared[:len(pkt)]
@@ -169,6 +265,14 @@ func worker(mode string, seed int64, n int) string {
 				shared[i] = 0xee ^ byte(i)
 			}
 		}
+		// background senders started by this step: wait (yielding) until they are gone
+		for deadline := time.Now().Add(20 * time.Second); runtime.NumGoroutine() > base && time.Now().Before(deadline); {
+			runtime.Gosched()
+			time.Sleep(20 * time.Microsecond)
+		}
+		if g := runtime.NumGoroutine(); g > base {
+			base = g // a long-lived goroutine was started: the new quiescent level
+		}
 		// drain notifications and emitted frames after every step
 	drain:
 		for {
@@ -179,8 +283,13 @@ func worker(mode string, seed int64, n int) string {
 				break drain
 			}
 		}
+		var sent []string
 		for _, f := range conn.Take() {
-			fmt.Fprintf(&t, "  sent %s\n", canonFrame(f))
+			sent = append(sent, canonFrame(f))
+		}
+		sort.Strings(sent) // the order between a reply and the frames of background senders is not part of the claim
+		for _, f := range sent {
+			fmt.Fprintf(&t, "  sent %s\n", f)
 		}
 	}
 	// final snapshots
@@ -214,9 +323,45 @@ func worker(mode string, seed int64, n int) string {
 	sort.Strings(lines)
 	t.WriteString(strings.Join(lines, "\n"))
 	if b, err := os.ReadFile(lease); err == nil {
-		t.WriteString("\nleasefile:\n" + string(b))
+		t.WriteString("\nleasefile:\n" + canonLeaseFile(string(b)))
 	}
 	return t.String()
+}
+
+// canonLeaseFile: the lease records are written in Go map iteration order and carry wall-clock instants
+// (offerexpiry / dhcpexpiry) - sort the records and blank the instants; everything else (client ids, MACs,
+// addresses, names, xids) is compared verbatim.
+func canonLeaseFile(text string) string {
+	lines := strings.Split(text, "\n")
+	var head, recs []string
+	i := 0
+	for ; i < len(lines); i++ {
+		head = append(head, lines[i])
+		if strings.HasPrefix(lines[i], "leases:") {
+			i++
+			break
+		}
+	}
+	cur := ""
+	for ; i < len(lines); i++ {
+		l := lines[i]
+		if strings.TrimSpace(l) == "" {
+			continue
+		}
+		if k := strings.Index(l, "expiry: "); k >= 0 {
+			l = l[:k] + "expiry: <instant>"
+		}
+		if strings.HasPrefix(l, "- ") && cur != "" {
+			recs = append(recs, cur)
+			cur = ""
+		}
+		cur += l + "\n"
+	}
+	if strings.TrimSpace(cur) != "" {
+		recs = append(recs, cur)
+	}
+	sort.Strings(recs)
+	return strings.Join(head, "\n") + "\n" + strings.Join(recs, "")
 }
 
 func runWorker(mode string, seed int64, n int) (string, error) {
@@ -269,7 +414,7 @@ func Gen(c *core.Ctx) {
 		fmt.Fprint(core.Out, worker(mode, c.Seed, n))
 		return
 	}
-	c.Res.Rule = "packet histories (ARP, DHCP discover/request with host names and client ids, DNS responses with CNAME/A and compression pointers, mDNS announcements, router advertisements with prefix/MTU/SLLA/RDNSS options, neighbour solicitations, plain IPv4 traffic with IP changes) through Session.Parse + ARP/ICMPv6/DHCPv4/DNS handlers + Notify, each executed in two fresh worker processes: shared receive buffer scribbled after every packet vs private immutable buffers; transcripts (per-step results, notifications, emitted frames, host/MAC tables, names, router table, DNS table, lease file) must be identical. evaluations = packets × 2 modes; distinct = histories × packets"
+	c.Res.Rule = "packet histories (ARP, DHCP in primary / secondary / secondary-nice mode by history: discover/select with host names and client ids, init-reboot / renew / rebind REQUESTs with and without lease, selects for another server, DECLINE, RELEASE, OFFERs of another server - i.e. the paths that start background senders of forged DECLINEs, which are awaited after every step on a single P -, DNS responses with CNAME/A and compression pointers, mDNS announcements, router advertisements with prefix/MTU/SLLA/RDNSS options, neighbour solicitations, plain IPv4 traffic with IP changes) through Session.Parse + ARP/ICMPv6/DHCPv4/DNS handlers + Notify, each executed in two fresh worker processes: shared receive buffer scribbled after every packet vs private immutable buffers; transcripts (per-step results, notifications, emitted frames, host/MAC tables, names, router table, DNS table, lease file) must be identical. evaluations = packets × 2 modes; distinct = histories × packets"
 	hist := c.Scale(6, 80)
 	n := c.Scale(120, 300)
 	for i := 0; i < hist; i++ {
@@ -298,6 +443,33 @@ func Gen(c *core.Ctx) {
 	c.Res.Extra["distinct_override"] = hist * n
 }
 
-func Eval(c *core.Ctx, line string) *core.Case { return nil }
+// compare runs one history in both buffer modes (fresh worker processes) and returns the first difference.
+func compare(seed int64, n int) (diff string, err error) {
+	a, errA := runWorker("scribble", seed, n)
+	b, errB := runWorker("private", seed, n)
+	if errA != nil || errB != nil {
+		return "", fmt.Errorf("C10 worker failed: %v / %v", errA, errB)
+	}
+	return firstDiff(a, b), nil
+}
+
+// Eval replays `history seed=<s> n=<n>`.
+func Eval(c *core.Ctx, line string) *core.Case {
+	var seed int64
+	var n int
+	if _, err := fmt.Sscanf(line, "history seed=%d n=%d", &seed, &n); err != nil || n <= 0 || n > 5000 {
+		return nil
+	}
+	d, err := compare(seed, n)
+	what := ""
+	switch {
+	case err != nil:
+		what = err.Error()
+	case d != "":
+		what = "retained state or later output depends on the reuse of the packet buffer: transcripts differ at " + d
+	}
+	return &core.Case{Line: line, Impl: "compared", Cmp: func(a, b string) bool { return true }, Class: "history",
+		Oracle: func() (string, string) { return what, "" }}
+}
 
 var Runner = core.Runner{Gen: Gen, Eval: Eval}
